@@ -39,6 +39,7 @@ class _ChildSim:
         self.wfd = wfd
         self.root = root
         self.n = 0
+        self.now = 0        # global step number of the last verdict = simulated time
         self.enabled = True
 
     def _send(self, obj):
@@ -79,10 +80,12 @@ class _ChildSim:
         self._send(("pt", self.n, op, [self.rel(a) for a in args][:3]))
         ans = self._recv()
         if ans[:1] == b"g":
+            self.now = int(ans[1:] or b"0")
             return None
         if ans[:1] == b"f":
-            code = int(ans[1:].decode())
-            raise OSError(code, os.strerror(code) + " [injected]")
+            code, _, now = ans[1:].decode().partition(",")
+            self.now = int(now or 0)
+            raise OSError(int(code), os.strerror(int(code)) + " [injected]")
         raise SimHarnessError("bad verdict %r" % ans)
 
     def blocked(self, op):
@@ -90,10 +93,20 @@ class _ChildSim:
         ans = self._recv()
         if ans[:1] != b"g":
             raise SimHarnessError("bad verdict %r" % ans)
+        self.now = int(ans[1:] or b"0")
+
+    def stamp(self, path):
+        """Set mtime of path from the simulated clock (1 step = 1 s)."""
+        t = (1_700_000_000 + self.now) * 1_000_000_000
+        try:
+            os.utime(path, ns=(t, t))
+        except OSError:
+            pass
 
     def done(self, status, value):
         self._send(("done", self.n, status, value))
 
+STAMP_WRITES = False    # set mtime of written files from the simulated clock at close
 WRITE_STRIDE = 1    # every n-th consecutive write() of a file is a sim point
 
 SIM = None  # the _ChildSim of the current actor process (None in the parent)
@@ -135,10 +148,11 @@ class SimFile:
     """File object proxy: write/read/close/truncate/flush are sim points.  An
     injected write failure writes a prefix first (short/torn write) and then
     raises."""
-    def __init__(self, real, label):
+    def __init__(self, real, label, stamp_path=None):
         self._f = real
         self._label = label
         self._wcount = 0
+        self._stamp = stamp_path    # files opened for writing get their mtime from the simulated clock
     def __getattr__(self, attr):
         return getattr(self._f, attr)
     def __enter__(self):
@@ -147,7 +161,12 @@ class SimFile:
     def __exit__(self, *a):
         if SIM is not None:
             SIM.point("file.close", (self._label,))
-        return self._f.__exit__(*a)
+        r = self._f.__exit__(*a)
+        self._do_stamp()
+        return r
+    def _do_stamp(self):
+        if self._stamp and SIM is not None and STAMP_WRITES:
+            SIM.stamp(self._stamp)
     def __iter__(self):
         return iter(self._f)
     def write(self, data):
@@ -169,9 +188,13 @@ class SimFile:
             SIM.point("file.read", (self._label,) + a)
         return self._f.read(*a)
     def close(self):
-        if SIM is not None and not self._f.closed:
+        was_open = not self._f.closed
+        if SIM is not None and was_open:
             SIM.point("file.close", (self._label,))
-        return self._f.close()
+        r = self._f.close()
+        if was_open:
+            self._do_stamp()
+        return r
     def truncate(self, *a):
         if SIM is not None:
             SIM.point("file.truncate", (self._label,))
@@ -184,7 +207,8 @@ def make_open(real_open=open, label=None):
         if SIM is not None:
             SIM.point("open", (name, mode))
         f = real_open(name, mode, *a, **kw)
-        return SimFile(f, (SIM.rel(name) if SIM is not None else str(name)))
+        wr = any(c in mode for c in "wax+")
+        return SimFile(f, (SIM.rel(name) if SIM is not None else str(name)), name if wr else None)
     return sim_open
 
 def make_named_temporary_file(real=tempfile.NamedTemporaryFile):
@@ -384,7 +408,7 @@ class ProcSim:
             # it this is a deadlock
             progressed = False
             for a in cands:
-                os.write(a.wfd, b"g")
+                os.write(a.wfd, b"g%d" % self.step)
                 self._await(a)
                 if a.state != "blocked":
                     progressed = True
@@ -396,7 +420,7 @@ class ProcSim:
         a = self._choose(cands)
         self.step += 1
         if a.state == "blocked":
-            os.write(a.wfd, b"g")
+            os.write(a.wfd, b"g%d" % self.step)
             self._await(a)
             self.log.append((self.step, a.name, "retry-lock", a.state))
             self.last = a
@@ -412,10 +436,10 @@ class ProcSim:
         if f is not None and f["kind"] == "errno" and _fault_applicable(cur[1]):
             self.fired.append(("errno-%d" % f["errno"], a.name, cur[0], cur[1]))
             self.log.append((self.step, a.name, "FAIL%d@%s" % (f["errno"], cur[1]), cur[2]))
-            os.write(a.wfd, b"f%d" % f["errno"])
+            os.write(a.wfd, b"f%d,%d" % (f["errno"], self.step))
         else:
             self.log.append((self.step, a.name, cur[1], cur[2]))
-            os.write(a.wfd, b"g")
+            os.write(a.wfd, b"g%d" % self.step)
         a.history.append(cur)
         self._await(a)
         self.last = a
